@@ -390,7 +390,35 @@ public:
             pushNewIndexBlock();
         }
 
-        m_blockIndex.back()->push_back(value);
+        try
+        {
+            m_blockIndex.back()->push_back(value);
+        }
+        catch(...)
+        {
+            // If copying the value failed in a block that was just
+            // added, don't leave an empty block at the end of the
+            // index: size() counts the blocks before the last one as
+            // full, and pop_back() and back() use the last block
+            // without checking that it holds anything.
+            BlockType* const    theLastBlock = m_blockIndex.back();
+
+            if (theLastBlock->empty())
+            {
+                m_blockIndex.pop_back();
+
+                try
+                {
+                    m_freeBlockVector.push_back(theLastBlock);
+                }
+                catch(...)
+                {
+                    XalanDestroy(*m_memoryManager, *theLastBlock);
+                }
+            }
+
+            throw;
+        }
     }
 
     void
@@ -399,6 +427,15 @@ public:
         assert(!empty());
 
         BlockType&  lastBlock = *m_blockIndex.back();
+
+        if (lastBlock.size() == 1)
+        {
+            // The block is about to become empty and will be moved to
+            // the free list: make room there first, so that a failure
+            // cannot leave an empty block at the end of the index.
+            m_freeBlockVector.reserve(m_freeBlockVector.size() + 1);
+        }
+
         lastBlock.pop_back();
 
         if (lastBlock.empty())
